@@ -1,6 +1,6 @@
 (* C11, second pass — proofs about model/ResolveHugr.v against spec/ResolveHugrS.v: resolution on the whole HUGR.
-   The per-operation theorems of proofs/ResolveP.v are used at every node, and at every node of every HUGR held
-   by a function value inside a constant. *)
+   The per-operation theorems of proofs/ResolveP.v are used at every node; constants (and the HUGRs of their
+   function values) are part of the frame. *)
 From Coq Require Import NArith List Bool Arith Lia.
 Import ListNotations.
 From HV Require Import lib.Harness model.Types model.Resolve spec.ResolveS proofs.ResolveP.
@@ -131,30 +131,17 @@ Proof.
   induction (h_nodes h) as [|[n|] l IH]; cbn; constructor; auto; constructor. repeat split.
 Qed.
 
-Lemma resolve_hop_rel_both reg : RegWF reg ->
-  (forall o, RHop reg o (resolve_hop reg o)) /\ (forall v, RVal reg v (resolve_val reg v)).
+Lemma resolve_hop_rel reg o : RegWF reg -> RHop reg o (resolve_hop reg o).
 Proof.
-  intros Hwf. apply hop_both_ind; cbn [resolve_hop resolve_val].
-  - intros o. constructor. now apply resolve_op_pointwise.
-  - constructor.
-  - now constructor.
-  - intros b IH. constructor; [reflexivity|reflexivity|]. cbn. now apply slots_map_rel.
-  - intros k vs IH. constructor. now apply Forall_Forall2_map.
-  - constructor.
+  intros Hwf. destruct o as [o|k a b l|v]; cbn [resolve_hop]; constructor. now apply resolve_op_pointwise.
 Qed.
 Lemma resolve_hugr_rel reg h : RegWF reg -> RHugr reg h (resolve_extensions reg h).
 Proof.
   intros Hwf. rewrite resolve_extensions_map. repeat split. cbn. apply slots_map_rel.
-  apply Forall_forall. intros [n|] _; cbn; [|trivial]. now apply resolve_hop_rel_both.
+  apply Forall_forall. intros [n|] _; cbn; [|trivial]. now apply resolve_hop_rel.
 Qed.
 
-(* only `op` fields change, and only those of nodes holding (at some depth) an opaque operation the registry defines *)
-Lemma cval_all_func p b :
-  cval_all p (VFunc b) = forallb (fun x => match x with Some n => hop_all p (n_op n) | None => true end) (h_nodes b).
-Proof. cbn. induction (h_nodes b) as [|[n|] l IH]; cbn; [reflexivity| |]; now rewrite IH. Qed.
-Lemma cval_all_sum p k vs : cval_all p (VSum k vs) = forallb (cval_all p) vs.
-Proof. cbn. induction vs as [|x l IH]; cbn; [reflexivity|]. now rewrite IH. Qed.
-
+(* only `op` fields change, and only those of nodes whose operation is an opaque operation the registry defines *)
 Lemma untouchable_op_fixed reg o : untouchable_op reg o = true -> resolve_op reg o = o.
 Proof.
   destruct o as [c|x|k]; cbn; try reflexivity. intros H. unfold resolve_custom.
@@ -170,34 +157,16 @@ Proof.
   apply resolvable_op_b_spec in R. contradiction.
 Qed.
 
-Lemma resolve_untouchable_both reg :
-  (forall o, hop_all (untouchable_op reg) o = true -> resolve_hop reg o = o) /\
-  (forall v, cval_all (untouchable_op reg) v = true -> resolve_val reg v = v).
+Lemma resolve_untouchable reg o : hop_holds (untouchable_op reg) o = true -> resolve_hop reg o = o.
+Proof. destruct o as [o|k a b l|v]; cbn; try reflexivity. intros H. now rewrite untouchable_op_fixed. Qed.
+Lemma resolve_fixed reg o : RegWF reg -> resolve_hop reg o = o -> hop_holds (untouchable_op reg) o = true.
 Proof.
-  apply hop_both_ind.
-  - intros o H. cbn in *. now rewrite untouchable_op_fixed.
-  - reflexivity.
-  - intros v IH H. cbn [resolve_hop]. cbn [hop_all] in H. now rewrite IH.
-  - intros b IH H. rewrite cval_all_func in H. cbn [resolve_val]. f_equal. apply map_hugr_id.
-    rewrite forallb_Forall in H. eapply Forall_impl2; [|exact IH|exact H]. intros [n|]; cbn; auto.
-  - intros k vs IH H. rewrite cval_all_sum in H. cbn [resolve_val]. f_equal. apply Forall_map_id.
-    rewrite forallb_Forall in H. eapply Forall_impl2; [|exact IH|exact H]. auto.
-  - reflexivity.
+  intros Hwf. destruct o as [o|k a b l|v]; cbn; try reflexivity. intros H. injection H as H.
+  now apply fixed_untouchable_op.
 Qed.
-Lemma resolve_fixed_both reg : RegWF reg ->
-  (forall o, resolve_hop reg o = o -> hop_all (untouchable_op reg) o = true) /\
-  (forall v, resolve_val reg v = v -> cval_all (untouchable_op reg) v = true).
-Proof.
-  intros Hwf. apply hop_both_ind.
-  - intros o H. cbn in *. injection H as H. now apply fixed_untouchable_op.
-  - reflexivity.
-  - intros v IH H. cbn in *. injection H as H. auto.
-  - intros b IH H. rewrite cval_all_func. cbn [resolve_val] in H. injection H as H. apply map_hugr_fix in H.
-    rewrite forallb_Forall. eapply Forall_impl2; [|exact IH|exact H]. intros [n|]; cbn; auto.
-  - intros k vs IH H. rewrite cval_all_sum. cbn [resolve_val] in H. injection H as H. apply map_fix_Forall in H.
-    rewrite forallb_Forall. eapply Forall_impl2; [|exact IH|exact H]. auto.
-  - reflexivity.
-Qed.
+(* constants are never touched, whatever they hold *)
+Lemma resolve_const reg v : resolve_hop reg (HConst v) = HConst v.
+Proof. reflexivity. Qed.
 
 (* node by node *)
 Lemma resolve_node_at reg h i :
@@ -205,24 +174,13 @@ Lemma resolve_node_at reg h i :
 Proof. rewrite resolve_extensions_map. apply get_node_map. Qed.
 
 (* ------------------------------------------------------------------ (b) idempotence *)
-Lemma resolve_hop_idem_both reg :
-  (forall o, resolve_hop reg (resolve_hop reg o) = resolve_hop reg o) /\
-  (forall v, resolve_val reg (resolve_val reg v) = resolve_val reg v).
-Proof.
-  apply hop_both_ind; cbn [resolve_hop resolve_val].
-  - intros o. now rewrite resolve_op_idem.
-  - reflexivity.
-  - intros v IH. now rewrite IH.
-  - intros b IH. f_equal. rewrite map_hugr_map_hugr. apply map_hugr_ext.
-    eapply Forall_impl; [|exact IH]. intros [n|]; cbn; auto.
-  - intros k vs IH. f_equal. rewrite map_map. now apply Forall_map_eq.
-  - reflexivity.
-Qed.
+Lemma resolve_hop_idem reg o : resolve_hop reg (resolve_hop reg o) = resolve_hop reg o.
+Proof. destruct o as [o|k a b l|v]; cbn; try reflexivity. now rewrite resolve_op_idem. Qed.
 Lemma resolve_extensions_idem reg h :
   resolve_extensions reg (resolve_extensions reg h) = resolve_extensions reg h.
 Proof.
   rewrite !resolve_extensions_map, map_hugr_map_hugr. apply map_hugr_ext.
-  apply Forall_forall. intros [n|] _; [|trivial]. apply resolve_hop_idem_both.
+  apply Forall_forall. intros [n|] _; [|trivial]. apply resolve_hop_idem.
 Qed.
 
 (* ------------------------------------------------------------------ Hugr._to_serial and a rewriting of the operations *)
@@ -358,37 +316,16 @@ Proof.
     rewrite Ey', Eys'. eexists. split; [reflexivity|]. now constructor.
 Qed.
 
-Lemma resolve_ser_hop_both reg : RegWF reg ->
-  (forall o, hop_all (consistent_op reg) o = true -> Ropt (SameSop reg) (ser_hop o) (ser_hop (resolve_hop reg o))) /\
-  (forall v, cval_all (consistent_op reg) v = true -> Ropt (SameSval reg) (ser_val v) (ser_val (resolve_val reg v))).
+Lemma resolve_ser_hop reg o : RegWF reg -> hop_holds (consistent_op reg) o = true ->
+  Ropt (SameSop reg) (ser_hop o) (ser_hop (resolve_hop reg o)).
 Proof.
-  intros Hwf. apply hop_both_ind.
-  - intros o Hc s Hs. cbn [hop_all] in Hc. cbn [ser_hop resolve_hop] in *.
-    destruct (ser_op o) as [so|] eqn:Eo; [|discriminate]. injection Hs as <-.
+  intros Hwf Hc s Hs. destruct o as [o|k a b l|v]; cbn [resolve_hop hop_holds] in *.
+  - cbn [ser_hop] in *. destruct (ser_op o) as [so|] eqn:Eo; [|discriminate]. injection Hs as <-.
     destruct (resolve_op_ser _ _ _ Hwf Hc Eo) as [so' [Eso' Hr]]. rewrite Eso'. eexists. split; [reflexivity|].
     now constructor.
-  - intros k a b l _ s Hs. exists s. split; [exact Hs|]. cbn in Hs. injection Hs as <-. constructor.
-  - intros v IH Hc s Hs. cbn [hop_all] in Hc. cbn [ser_hop resolve_hop] in *.
-    destruct (ser_val v) as [sv|] eqn:Ev; [|discriminate]. injection Hs as <-.
-    destruct (IH Hc _ eq_refl) as [sv' [Esv' Hr]]. rewrite Esv'. eexists. split; [reflexivity|]. now constructor.
-  - intros b IH Hc s Hs. rewrite cval_all_func, forallb_Forall in Hc. cbn [resolve_val].
-    rewrite ser_val_func_eq in *.
-    assert (H : orel (serial_rel (Ropt (SameSop reg))) (to_serial ser_hop hop_ndp md_is_nil b)
-                     (to_serial ser_hop hop_ndp md_is_nil (map_hugr (resolve_hop reg) b))).
-    { apply to_serial_map. eapply Forall_impl2; [|exact IH|exact Hc]. intros [n|]; cbn; [|trivial].
-      intros HP Hcn. split; [intros d; apply resolve_hop_ndp|auto]. }
-    destruct (to_serial ser_hop hop_ndp md_is_nil b) as [d|]; [|discriminate].
-    destruct (to_serial ser_hop hop_ndp md_is_nil (map_hugr (resolve_hop reg) b)) as [d'|]; cbn in H; [|contradiction].
-    destruct (seq_serial d) as [sd|] eqn:Ed; [|discriminate]. injection Hs as <-.
-    destruct (seq_serial_rel _ _ _ _ H Ed) as [sd' [Ed' (He & Hm & Hn)]]. rewrite Ed'. eexists. split; [reflexivity|].
-    now constructor.
-  - intros k vs IH Hc s Hs. rewrite cval_all_sum, forallb_Forall in Hc. cbn [ser_val resolve_val] in *.
-    destruct (omap ser_val vs) as [l|] eqn:El; [|discriminate]. injection Hs as <-.
-    rewrite omap_map.
-    assert (H : Ropt (Forall2 (SameSval reg)) (omap ser_val vs) (omap (fun x => ser_val (resolve_val reg x)) vs)).
-    { apply omap_rel. eapply Forall_impl2; [|exact IH|exact Hc]. auto. }
-    destruct (H _ El) as [l' [El' Hr]]. rewrite El'. eexists. split; [reflexivity|]. now constructor.
-  - intros k _ s Hs. exists s. split; [exact Hs|]. cbn in Hs. injection Hs as <-. constructor.
+  - exists s. split; [exact Hs|]. cbn in Hs. injection Hs as <-. constructor.
+  - exists s. split; [exact Hs|]. cbn [ser_hop] in Hs. destruct (ser_val v); [|discriminate].
+    injection Hs as <-. constructor.
 Qed.
 
 Lemma resolve_doc reg h s : RegWF reg -> consistent_hugr reg h = true -> hugr_doc h = Some s ->
@@ -399,7 +336,7 @@ Proof.
   assert (H : orel (serial_rel (Ropt (SameSop reg))) (to_serial ser_hop hop_ndp md_is_nil h)
                    (to_serial ser_hop hop_ndp md_is_nil (map_hugr (resolve_hop reg) h))).
   { apply to_serial_map. eapply Forall_impl; [|exact Hc]. intros [n|]; cbn; [|trivial].
-    intros Hcn. split; [intros d; apply resolve_hop_ndp|]. now apply resolve_ser_hop_both. }
+    intros Hcn. split; [intros d; apply resolve_hop_ndp|]. now apply resolve_ser_hop. }
   destruct (to_serial ser_hop hop_ndp md_is_nil h) as [d|]; [|discriminate].
   destruct (to_serial ser_hop hop_ndp md_is_nil (map_hugr (resolve_hop reg) h)) as [d'|]; cbn in H; [|contradiction].
   destruct (seq_serial_rel _ _ _ _ H Hs) as [sd' [Ed' Hr]]. exists sd'. split; [exact Ed'|exact Hr].
@@ -430,11 +367,11 @@ Proof.
   destruct (port_type h i k) as [t|]; cbn in E; [|now left]. right. exists t, (resolve_ty reg t).
   repeat split; auto. now apply resolve_pointwise.
 Qed.
-Lemma port_type_untouched reg h i n k : get_node h i = Some n -> hop_all (untouchable_op reg) (n_op n) = true ->
+Lemma port_type_untouched reg h i n k : get_node h i = Some n -> hop_holds (untouchable_op reg) (n_op n) = true ->
   port_type (resolve_extensions reg h) i k = port_type h i k.
 Proof.
   intros E H. unfold port_type. rewrite resolve_node_at, E. cbn.
-  now rewrite (proj1 (resolve_untouchable_both reg) _ H).
+  now rewrite (resolve_untouchable reg _ H).
 Qed.
 Lemma port_type_consistent reg h i k t : consistent_hugr reg h = true -> port_type h i k = Some t ->
   port_type (resolve_extensions reg h) i k = Some t \/ consistent reg t = true.
@@ -492,7 +429,7 @@ Qed.
 Lemma links_eqb_eq a b : list_eqb link_eqb a b = true -> a = b.
 Proof. apply list_eqb_eq. exact link_eqb_eq. Qed.
 
-(* the local loops of rval_b / sval_rel as list functions *)
+(* the local loops of cval_eqb / sval_rel as list functions *)
 Definition slots_b (f : hop -> hop -> bool) : list (option nodeT) -> list (option nodeT) -> bool :=
   fix go l m :=
     match l, m with
@@ -501,12 +438,12 @@ Definition slots_b (f : hop -> hop -> bool) : list (option nodeT) -> list (optio
     | Some n :: r, Some n' :: s => node_frame_b n n' && f (n_op n) (n_op n') && go r s
     | _, _ => false
     end.
-Lemma rval_b_func reg b b' :
-  rval_b reg (VFunc b) (VFunc b') =
+Lemma cval_eqb_func b b' :
+  cval_eqb (VFunc b) (VFunc b') =
   Nat.eqb (h_root b') (h_root b) && list_eqb link_eqb (h_links b') (h_links b) &&
-  slots_b (rhop_b reg) (h_nodes b) (h_nodes b').
+  slots_b hop_eqb (h_nodes b) (h_nodes b').
 Proof. reflexivity. Qed.
-Lemma rval_b_sum reg k vs k' vs' : rval_b reg (VSum k vs) (VSum k' vs') = N.eqb k k' && leq (rval_b reg) vs vs'.
+Lemma cval_eqb_sum k vs k' vs' : cval_eqb (VSum k vs) (VSum k' vs') = N.eqb k k' && leq cval_eqb vs vs'.
 Proof. reflexivity. Qed.
 Lemma slots_b_sound (f : hop -> hop -> bool) (R : hop -> hop -> Prop) l :
   Forall (slot_all (fun o => forall o', f o o' = true -> R o o')) l ->
@@ -518,29 +455,52 @@ Proof.
     split; [now apply node_frame_b_sound|]. now apply Hx.
   - intros H. constructor; [constructor|auto].
 Qed.
+Lemma node_ext (n n' : nodeT) : node_frame n n' -> n_op n = n_op n' -> n = n'.
+Proof. destruct n, n'. unfold node_frame. cbn. intros (-> & -> & -> & -> & ->) ->. reflexivity. Qed.
+Lemma slots_eq (l m : list (option nodeT)) :
+  Forall2 (slot_rel (fun n n' : nodeT => node_frame n n' /\ n_op n = n_op n')) l m -> l = m.
+Proof.
+  induction 1 as [|x y l m Hxy _ IH]; [reflexivity|]. f_equal; [|exact IH].
+  destruct Hxy as [|n n' [Hf Ho]]; [reflexivity|]. f_equal. now apply node_ext.
+Qed.
 
-Lemma rhop_b_sound_both reg :
-  (forall a b, rhop_b reg a b = true -> RHop reg a b) /\ (forall v w, rval_b reg v w = true -> RVal reg v w).
+(* hop_eqb is equality, nested HUGRs included: a constant that passes the monitor is the same constant *)
+Lemma hop_eqb_eq_both :
+  (forall a b, hop_eqb a b = true -> a = b) /\ (forall v w, cval_eqb v w = true -> v = w).
 Proof.
   apply hop_both_ind.
-  - intros o [o'|? ? ? ?|?]; cbn; try discriminate. intros H. constructor. now apply rop_b_sound.
+  - intros o [o'|? ? ? ?|?]; cbn; try discriminate. intros H. f_equal. now apply op_eqb_eq.
   - intros k a b l [?|k' a' b' l'|?]; cbn; try discriminate. rewrite !andb_true_iff. intros [[[H1 H2] H3] H4].
     apply N.eqb_eq in H1. apply (option_eqb_eq _ nat_eqb_eq) in H2. apply (option_eqb_eq _ nat_eqb_eq) in H3.
-    apply (list_eqb_eq _ (option_eqb_eq _ ty_eqb_eq)) in H4. subst. constructor.
-  - intros v IH [?|? ? ? ?|w]; cbn; try discriminate. intros H. constructor. now apply IH.
-  - intros b IH [b'|? ?|?]; try (cbn; discriminate). rewrite rval_b_func, !andb_true_iff. intros [[H1 H2] H3].
-    apply Nat.eqb_eq in H1. apply links_eqb_eq in H2. constructor; auto. eapply slots_b_sound; eauto.
-  - intros k vs IH [?|k' vs'|?]; try (cbn; discriminate). rewrite rval_b_sum, andb_true_iff. intros [H1 H2].
-    apply N.eqb_eq in H1. subst. constructor. eapply leq_Forall2; eauto.
-  - intros k [?|? ?|k']; cbn; try discriminate. intros H. apply N.eqb_eq in H. subst. constructor.
+    apply (list_eqb_eq _ (option_eqb_eq _ ty_eqb_eq)) in H4. now subst.
+  - intros v IH [?|? ? ? ?|w]; cbn; try discriminate. intros H. f_equal. now apply IH.
+  - intros b IH [b'|? ?|?]; try (cbn; discriminate). rewrite cval_eqb_func, !andb_true_iff. intros [[H1 H2] H3].
+    apply Nat.eqb_eq in H1. apply links_eqb_eq in H2. f_equal.
+    pose proof (slots_b_sound hop_eqb eq _ IH _ H3) as Hs. apply slots_eq in Hs.
+    destruct b, b'; cbn in *. now subst.
+  - intros k vs IH [?|k' vs'|?]; try (cbn; discriminate). rewrite cval_eqb_sum, andb_true_iff. intros [H1 H2].
+    apply N.eqb_eq in H1. subst. f_equal. eapply leq_eq; eauto.
+  - intros k [?|? ?|k']; cbn; try discriminate. intros H. apply N.eqb_eq in H. now subst.
+Qed.
+Lemma hop_eqb_eq a b : hop_eqb a b = true -> a = b.
+Proof. apply hop_eqb_eq_both. Qed.
+
+Lemma rhop_b_sound reg a b : rhop_b reg a b = true -> RHop reg a b.
+Proof.
+  destruct a as [o|k x y l|v], b as [o'|k' x' y' l'|v']; unfold rhop_b;
+    try (intros H; apply hop_eqb_eq in H; try discriminate; injection H; intros; subst; constructor).
+  intros H. constructor. now apply rop_b_sound.
 Qed.
 Lemma rhugr_b_sound reg h h' : rhugr_b reg h h' = true -> RHugr reg h h'.
 Proof.
   unfold rhugr_b, RHugr. rewrite !andb_true_iff. intros [[H1 H2] H3]. apply Nat.eqb_eq in H1. apply links_eqb_eq in H2.
   repeat split; auto. rewrite list_eqb_leq in H3. eapply leq_Forall2; [|exact H3]. apply Forall_forall.
   intros [n|] _ [n'|]; cbn; try discriminate; [|constructor]. rewrite andb_true_iff. intros [Ha Hb]. constructor.
-  split; [now apply node_frame_b_sound|]. now apply rhop_b_sound_both.
+  split; [now apply node_frame_b_sound|]. now apply rhop_b_sound.
 Qed.
+(* in particular: a constant (function values and their HUGRs included) that the monitor accepts is unchanged *)
+Lemma rhop_b_const reg v o : rhop_b reg (HConst v) o = true -> o = HConst v.
+Proof. intros H. unfold rhop_b in H. apply hop_eqb_eq in H. now subst. Qed.
 
 (* documents *)
 Lemma same_but_descr_b_sound reg a b : same_but_descr_b reg a b = true -> same_but_descr reg a b.
@@ -613,26 +573,40 @@ Proof.
   apply Nat.eqb_eq in H1. auto.
 Qed.
 
-Lemma sop_rel_sound_both reg :
-  (forall a b, sop_rel (same_but_descr_b reg) a b = true -> SameSop reg a b) /\
-  (forall v w, sval_rel (same_but_descr_b reg) v w = true -> SameSval reg v w).
+Lemma snode_ext (a b : snode sop) : s_parent b = s_parent a -> s_op a = s_op b -> a = b.
+Proof. destruct a, b. cbn. intros -> ->. reflexivity. Qed.
+(* sop_eqb is equality, the documents of function values included *)
+Lemma sop_eqb_eq_both :
+  (forall a b, sop_rel op_eqb a b = true -> a = b) /\ (forall v w, sval_rel op_eqb v w = true -> v = w).
 Proof.
   apply sop_both_ind.
-  - intros o [o'|?|?]; cbn; try discriminate. intros H. constructor. now apply same_but_descr_b_sound.
-  - intros k [?|k'|?]; cbn; try discriminate. intros H. apply N.eqb_eq in H. subst. constructor.
-  - intros v IH [?|?|w]; cbn; try discriminate. intros H. constructor. now apply IH.
+  - intros o [o'|?|?]; cbn; try discriminate. intros H. f_equal. now apply op_eqb_eq.
+  - intros k [?|k'|?]; cbn; try discriminate. intros H. apply N.eqb_eq in H. now subst.
+  - intros v IH [?|?|w]; cbn; try discriminate. intros H. f_equal. now apply IH.
   - intros d IH [d'|? ?|?]; try (cbn; discriminate). rewrite sval_rel_func, !andb_true_iff. intros [[H1 H2] H3].
-    apply sedges_eqb_eq in H1. apply smeta_eqb_eq in H2. constructor; auto. eapply snodes_b_sound; eauto.
+    apply sedges_eqb_eq in H1. apply smeta_eqb_eq in H2. f_equal.
+    pose proof (snodes_b_sound (sop_rel op_eqb) eq _ IH _ H3) as Hs.
+    assert (E : s_nodes d = s_nodes d').
+    { clear -Hs. induction Hs as [|a b l m [Hp Ho] _ IHs]; [reflexivity|]. f_equal; [now apply snode_ext|exact IHs]. }
+    destruct d, d'; cbn in *. now subst.
   - intros k vs IH [?|k' vs'|?]; try (cbn; discriminate). rewrite sval_rel_sum, andb_true_iff. intros [H1 H2].
-    apply N.eqb_eq in H1. subst. constructor. eapply leq_Forall2; eauto.
-  - intros k [?|? ?|k']; cbn; try discriminate. intros H. apply N.eqb_eq in H. subst. constructor.
+    apply N.eqb_eq in H1. subst. f_equal. eapply leq_eq; eauto.
+  - intros k [?|? ?|k']; cbn; try discriminate. intros H. apply N.eqb_eq in H. now subst.
+Qed.
+Lemma sop_eqb_eq a b : sop_eqb a b = true -> a = b.
+Proof. apply sop_eqb_eq_both. Qed.
+Lemma same_sop_b_sound reg a b : same_sop_b reg a b = true -> SameSop reg a b.
+Proof.
+  destruct a as [o|k|v], b as [o'|k'|v']; unfold same_sop_b;
+    try (intros H; apply sop_eqb_eq in H; try discriminate; injection H; intros; subst; constructor).
+  intros H. constructor. now apply same_but_descr_b_sound.
 Qed.
 Lemma same_doc_b_sound reg d d' : same_doc_b reg d d' = true -> SameDoc reg d d'.
 Proof.
-  unfold same_doc_b, doc_rel, SameDoc. rewrite !andb_true_iff. intros [[H1 H2] H3].
+  unfold same_doc_b, SameDoc. rewrite !andb_true_iff. intros [[H1 H2] H3].
   apply sedges_eqb_eq in H1. apply smeta_eqb_eq in H2. repeat split; auto.
   rewrite list_eqb_leq in H3. eapply leq_Forall2; [|exact H3]. apply Forall_forall. intros a _ b.
-  rewrite andb_true_iff. intros [Ha Hb]. apply Nat.eqb_eq in Ha. split; auto. now apply sop_rel_sound_both.
+  rewrite andb_true_iff. intros [Ha Hb]. apply Nat.eqb_eq in Ha. split; auto. now apply same_sop_b_sound.
 Qed.
 
 (* ------------------------------------------------------------------ the hypotheses are satisfiable, non-trivially *)
@@ -669,7 +643,8 @@ Example exh_nontrivial :
                 doc_eqb s s' = false /\ same_doc_b Ex.reg s s' = true) /\
   (exists t, port_type ExH.h 2 0 = Some t /\ port_type (resolve_extensions Ex.reg ExH.h) 2 0 = Some (resolve_ty Ex.reg t) /\
              ty_eqb (resolve_ty Ex.reg t) t = false) /\
-  port_type ExH.h 2 1 = None.
+  port_type ExH.h 2 1 = None /\
+  get_node (resolve_extensions Ex.reg ExH.h) 3 = get_node ExH.h 3 /\ hugr_all (untouchable_op Ex.reg) ExH.body = false.
 Proof.
   split; [exact ex_regwf|]. repeat split; try (vm_compute; reflexivity).
   - do 2 eexists. repeat split; vm_compute; reflexivity.
@@ -691,29 +666,40 @@ Proof.
 Qed.
 
 Lemma hugr_resolve_pointwise_thm : forall reg, RegWF reg ->
-  (forall h, RHugr reg h (resolve_extensions reg h)) /\
-  (forall o, RHop reg o (resolve_hop reg o)) /\ (forall v, RVal reg v (resolve_val reg v)).
+  (forall h, RHugr reg h (resolve_extensions reg h)) /\ (forall o, RHop reg o (resolve_hop reg o)).
 Proof.
-  intros reg Hwf. split; [intros h; now apply resolve_hugr_rel|]. now apply resolve_hop_rel_both.
+  intros reg Hwf. split; [intros h; now apply resolve_hugr_rel|intros o; now apply resolve_hop_rel].
 Qed.
 
 Lemma hugr_only_defined_ops_change_thm : forall reg,
-  (forall o, hop_all (untouchable_op reg) o = true -> resolve_hop reg o = o) /\
-  (RegWF reg -> forall o, resolve_hop reg o = o -> hop_all (untouchable_op reg) o = true) /\
+  (forall o, hop_holds (untouchable_op reg) o = true -> resolve_hop reg o = o) /\
+  (RegWF reg -> forall o, resolve_hop reg o = o -> hop_holds (untouchable_op reg) o = true) /\
   (forall h, hugr_all (untouchable_op reg) h = true -> resolve_extensions reg h = h) /\
-  (forall h i n, get_node h i = Some n -> hop_all (untouchable_op reg) (n_op n) = true ->
+  (forall h i n, get_node h i = Some n -> hop_holds (untouchable_op reg) (n_op n) = true ->
                  get_node (resolve_extensions reg h) i = Some n).
 Proof.
-  intros reg. split; [apply resolve_untouchable_both|]. split; [intros Hwf; now apply resolve_fixed_both|]. split.
+  intros reg. split; [apply resolve_untouchable|]. split; [intros Hwf o; now apply resolve_fixed|]. split.
   - intros h H. rewrite resolve_extensions_map. apply map_hugr_id. unfold hugr_all in H. rewrite forallb_Forall in H.
-    eapply Forall_impl; [|exact H]. intros [n|]; cbn; [|trivial]. apply resolve_untouchable_both.
-  - intros h i n E H. rewrite resolve_node_at, E. cbn. f_equal. apply map_node_id. now apply resolve_untouchable_both.
+    eapply Forall_impl; [|exact H]. intros [n|]; cbn; [|trivial]. apply resolve_untouchable.
+  - intros h i n E H. rewrite resolve_node_at, E. cbn. f_equal. apply map_node_id. now apply resolve_untouchable.
+Qed.
+
+(* constants belong to the frame *)
+Lemma hugr_constants_untouched_thm : forall reg,
+  (forall v, resolve_hop reg (HConst v) = HConst v) /\
+  (forall h i n v, get_node h i = Some n -> n_op n = HConst v -> get_node (resolve_extensions reg h) i = Some n) /\
+  (forall v o, rhop_b reg (HConst v) o = true -> o = HConst v) /\
+  (forall v o, RHop reg (HConst v) o -> o = HConst v).
+Proof.
+  intros reg. split; [reflexivity|]. split.
+  - intros h i n v E Ho. rewrite resolve_node_at, E. cbn. f_equal. apply map_node_id. now rewrite Ho.
+  - split; [apply rhop_b_const|]. intros v o H. inversion H. reflexivity.
 Qed.
 
 Lemma hugr_idempotent_thm : forall reg,
   (forall h, resolve_extensions reg (resolve_extensions reg h) = resolve_extensions reg h) /\
   (forall o, resolve_hop reg (resolve_hop reg o) = resolve_hop reg o).
-Proof. intros reg. split; [apply resolve_extensions_idem|apply resolve_hop_idem_both]. Qed.
+Proof. intros reg. split; [apply resolve_extensions_idem|apply resolve_hop_idem]. Qed.
 
 Lemma hugr_document_thm : forall reg, RegWF reg ->
   (forall h s, consistent_hugr reg h = true -> hugr_doc h = Some s ->
@@ -748,7 +734,7 @@ Lemma hugr_port_types_thm : forall reg h i k,
    exists n c, get_node h i = Some n /\ n_op n = HOp (OCustom c) /\ lookup_op reg (c_ext c) (c_name c) <> None /\
                port_type (resolve_extensions reg h) i k = option_map (resolve_ty reg) (port_type h i k)) /\
   (RegWF reg -> port_type_rel reg (port_type h i k) (port_type (resolve_extensions reg h) i k)) /\
-  (forall n, get_node h i = Some n -> hop_all (untouchable_op reg) (n_op n) = true ->
+  (forall n, get_node h i = Some n -> hop_holds (untouchable_op reg) (n_op n) = true ->
              port_type (resolve_extensions reg h) i k = port_type h i k) /\
   (RegWF reg -> consistent_hugr reg h = true ->
      option_map tbound (port_type (resolve_extensions reg h) i k) = option_map tbound (port_type h i k) /\
@@ -783,35 +769,12 @@ Proof.
   - apply resolve_deep; auto. rewrite forallb_forall in Ho. auto.
   - apply resolve_arg_deep; auto. rewrite forallb_forall in Ha. auto.
 Qed.
-Lemma hugr_all_map p (f : hop -> hop) ns :
-  forallb (fun x : option nodeT => match x with Some n => hop_all p (n_op n) | None => true end)
-          (map (option_map (map_node f)) ns) =
-  forallb (fun x : option nodeT => match x with Some n => hop_all p (f (n_op n)) | None => true end) ns.
-Proof. induction ns as [|[n|] l IH]; cbn; [reflexivity| |]; now rewrite IH. Qed.
-Lemma resolve_hop_deep_both reg : RegWF reg ->
-  (forall o, hop_all op_loaded o = true -> hop_all (op_clean reg) (resolve_hop reg o) = true) /\
-  (forall v, cval_all op_loaded v = true -> cval_all (op_clean reg) (resolve_val reg v) = true).
-Proof.
-  intros Hwf. apply hop_both_ind.
-  - intros o H. cbn in *. now apply resolve_op_deep.
-  - reflexivity.
-  - intros v IH H. cbn [resolve_hop hop_all] in *. auto.
-  - intros b IH H. cbn [resolve_val]. rewrite cval_all_func in *. cbn [map_hugr h_nodes]. rewrite hugr_all_map.
-    rewrite forallb_Forall in *. eapply Forall_impl2; [|exact IH|exact H]. intros [n|]; cbn; auto.
-  - intros k vs IH H. cbn [resolve_val]. rewrite cval_all_sum in *. rewrite forallb_map.
-    rewrite forallb_Forall in *. eapply Forall_impl2; [|exact IH|exact H]. auto.
-  - reflexivity.
-Qed.
 Lemma hugr_reaches_every_depth_thm : forall reg, RegWF reg ->
   (forall h, hugr_all op_loaded h = true -> hugr_all (op_clean reg) (resolve_extensions reg h) = true) /\
   (forall o, op_loaded o = true -> op_clean reg (resolve_op reg o) = true).
 Proof.
   intros reg Hwf. split; [|intros o; now apply resolve_op_deep].
-  intros h H. rewrite resolve_extensions_map. unfold hugr_all in *. cbn [map_hugr h_nodes]. rewrite hugr_all_map.
+  intros h H. rewrite resolve_extensions_map. unfold hugr_all in *. cbn [map_hugr h_nodes]. rewrite forallb_map.
   rewrite forallb_Forall in *. eapply Forall_impl; [|exact H]. intros [n|]; cbn; [|trivial].
-  now apply resolve_hop_deep_both.
+  destruct (n_op n) as [o|k a b l|v]; cbn; auto. now apply resolve_op_deep.
 Qed.
-
-(* the body of a function value is resolved by the same loop *)
-Lemma resolve_val_func_loop reg b : resolve_val reg (VFunc b) = VFunc (resolve_extensions reg b).
-Proof. cbn [resolve_val]. now rewrite resolve_extensions_map. Qed.
